@@ -48,7 +48,7 @@ def run(ctx, res):
         res.cannot("C10.R1", fn, "loop-body", str(e), loc)
         return
     TOK = "tokens.get(cursor).some"
-    outp = [p["pat"]["id"] for p in b["params"] if p["pat"]["p"] == "bind" and p["ty"].startswith("&mut std::vec::Vec<")]
+    outp = [p["pat"]["id"] for p in b["params"] if p["pat"]["p"] == "bind" and p["ty"].startswith("&mut std::vec::Vec<") and "ContentPart" in p["ty"]]
     if len(outp) != 1:
         res.cannot("C10.R1", fn, "out-param", "expected one `&mut Vec<ContentPart>` parameter", loc)
         return
